@@ -839,6 +839,39 @@ theorem refs_own_exchange {defs : List Def} {ii : Indexed} (h : build defs = som
         · cases hc
       · cases hc
 
+/-- Builder output, NO hypothesis on the definitions: every asset index of an indexed instrument
+points at an asset entry of the instrument's own exchange (the closure of
+`IndexedInstrumentsBuilder::build` looks assets up by (exchange id, internal name),
+`find_asset_by_exchange_and_name_internal`). `refs_own_exchange` had C11's `WFAssets`. -/
+theorem refs_own_exchange_w {defs : List Def} {ii : Indexed} (h : build defs = some ii)
+    (k : Nat) (x : Keyed Nat IInstrument) (hx : ii.instruments[k]? = some x)
+    (b : Nat) (hb : b ∈ x.value.assetRefs) :
+    ∃ y, ii.assets[b]? = some y ∧ y.value.exchange = x.value.exchange.value := by
+  obtain ⟨ins, hbd, hlen, hget⟩ := build_spec defs
+  have hii : ii = tables defs ins := by rw [hbd] at h; cases h; rfl
+  have hk : k < (sortedDefs defs).length := by
+    rw [← hlen]; rw [hii] at hx; exact (List.getElem?_eq_some_iff.mp hx).1
+  have hd := hget k _ (List.getElem?_eq_getElem hk)
+  rw [hii] at hx
+  simp only [tables] at hx
+  rw [hx] at hd
+  simp only [indexInstrument] at hd
+  split at hd
+  · cases hd
+  · rename_i ek hek
+    split at hd
+    · cases hd
+    · rename_i i0 hi0
+      simp only [Option.some.injEq] at hd
+      have hv : x.value = i0 := by rw [hd]
+      rw [hv] at hb
+      obtain ⟨a, _, hfa⟩ := mapAsset_refs _ _ _ hi0 b hb
+      obtain ⟨y, hy, hye, _⟩ := findAsset_some _ _ _ _ hfa
+      obtain ⟨h1, _⟩ := mapAsset_some _ _ _ hi0
+      refine ⟨⟨b, y⟩, ?_, ?_⟩
+      · rw [hii]; simp only [tables]; rw [getElem?_enumerate, hy]; rfl
+      · rw [hv, h1]; simpa [Instrument.mapExchangeKey] using hye
+
 /-! ### table: keys, entries, size -/
 
 theorem pairs_keys (ii : Indexed) (l : List IInstrument) (pairs : List (Nat × MInstrument))
@@ -1140,8 +1173,7 @@ theorem ofExchange_names_unique {defs : List Def} {ii : Indexed} (h : build defs
 the manager addresses it by its exchange name, the mock table holds under that name the native form
 of exactly this instrument, the base / quote names of that entry translate back (on the same link)
 to the instrument's own base / quote asset *indices*, and the name translates back to `i`. -/
-theorem own_view {defs : List Def} {ii : Indexed} (h : build defs = some ii) (ex : Nat)
-    (hwf : WFAssets defs) (hu : UniqueNames defs ex) (ha : UniqueAssetNames defs ex)
+theorem own_view_w {defs : List Def} {ii : Indexed} (h : build defs = some ii) (ex : Nat) (hu : UniqueNames defs ex) (ha : UniqueAssetNames defs ex)
     {m : ExecMap.EMap} {t : Table} (hm : ExecMap.genMap (toColl ii) ex = .ok m)
     (ht : genMockInstruments ii ex = .ok t) {i : Nat} {x : Keyed Nat IInstrument}
     (hx : ii.instruments[i]? = some x) (hex : x.value.exchange.value = ex) :
@@ -1176,7 +1208,7 @@ theorem own_view {defs : List Def} {ii : Indexed} (h : build defs = some ii) (ex
   have asset : ∀ (b n : Nat), b ∈ x.value.assetRefs →
       (ii.findAsset b).map (·.asset.nameExchange) = some n → m.findAssetIndex n = .ok b := by
     intro b n hb hn
-    obtain ⟨y, hy, hye⟩ := refs_own_exchange h hwf i x hx b hb
+    obtain ⟨y, hy, hye⟩ := refs_own_exchange_w h i x hx b hb
     have hfa : ii.findAsset b = some y.value := by
       rw [findAsset_eq defs ii h b]; exact asset_at h b y hy
     rw [hfa] at hn
@@ -1186,6 +1218,18 @@ theorem own_view {defs : List Def} {ii : Indexed} (h : build defs = some ii) (ex
     rw [ExecMap.findAssetIndex_eq hA, ← hn,
       (ExecMap.specAssetIndex_some hW _ b).mpr ⟨_, hka, by rw [hye, hex], rfl⟩]
   exact ⟨asset _ _ (by simp [mem_assetRefs]) h5, asset _ _ (by simp [mem_assetRefs]) h6⟩
+
+/-- (the version with C11's `WFAssets` among the hypotheses, kept under its old name; `own_view_w` does without) -/
+theorem own_view {defs : List Def} {ii : Indexed} (h : build defs = some ii) (ex : Nat)
+    (_hwf : WFAssets defs) (hu : UniqueNames defs ex) (ha : UniqueAssetNames defs ex)
+    {m : ExecMap.EMap} {t : Table} (hm : ExecMap.genMap (toColl ii) ex = .ok m)
+    (ht : genMockInstruments ii ex = .ok t) {i : Nat} {x : Keyed Nat IInstrument}
+    (hx : ii.instruments[i]? = some x) (hex : x.value.exchange.value = ex) :
+    m.findInstrumentName i = .ok x.value.nameExchange ∧
+    m.findInstrumentIndex x.value.nameExchange = .ok i ∧
+    ∃ e, findInstrumentData t x.value.nameExchange = some e ∧ nativeI ii x.value = some e ∧
+      m.findAssetIndex e.base = .ok x.value.base ∧ m.findAssetIndex e.quote = .ok x.value.quote :=
+  own_view_w h ex hu ha hm ht hx hex
 
 /-! ### the builder -/
 
@@ -1914,8 +1958,7 @@ reaches a mock exchange: the instrument belongs to that exchange; whatever comes
 channel is keyed by the same exchange index and the same instrument index; and the balance that
 moves (or is reported insufficient) is the balance of the instrument's own quote asset index for a
 buy, base asset index for a sell. -/
-theorem sendOpen_view {defs : List Def} {ii : Indexed} (h : build defs = some ii)
-    (hwf : WFAssets defs) {e e' : Exec} (hinv : ExecInv ii e) {o : Open} {client name : Nat}
+theorem sendOpen_view_w {defs : List Def} {ii : Indexed} (h : build defs = some ii) {e e' : Exec} (hinv : ExecInv ii e) {o : Open} {client name : Nat}
     {ev : Events} (hs : sendOpen e o = (e', .mock client name ev))
     (hu : UniqueNames defs client) (ha : UniqueAssetNames defs client) :
     ∃ x, ii.instruments[o.instrument]? = some x ∧ x.value.exchange.value = client ∧
@@ -1969,7 +2012,7 @@ theorem sendOpen_view {defs : List Def} {ii : Indexed} (h : build defs = some ii
     have hminv := hinv.mocks mt' hmtm
     have htab : genMockInstruments ii mg'.exchange = .ok mt'.table := by rw [← hc2]; exact hminv.table
     rw [hcl] at hu ha
-    obtain ⟨_, h2', en, hen, _, hb, hq⟩ := own_view h mg'.exchange hwf hu ha hm htab hx hkex
+    obtain ⟨_, h2', en, hen, _, hb, hq⟩ := own_view_w h mg'.exchange hu ha hm htab hx hkex
     refine ⟨x, rfl, by rw [hcl]; exact hkex, by rw [hname, hkn], ?_⟩
     have hevs := mockOpen_events hminv mg'.map r.key.instrument o en o.instrument x.value.base x.value.quote
       (by rw [← hkn]; exact hen) (by rw [← hkn]; exact h2') hb hq
@@ -1980,6 +2023,22 @@ theorem sendOpen_view {defs : List Def} {ii : Indexed} (h : build defs = some ii
     intro xx j oc hoc
     obtain ⟨a1, a2, a3⟩ := e1 xx j oc hoc
     exact ⟨by rw [a1, hk], a2, a3⟩
+
+/-- (the version with C11's `WFAssets` among the hypotheses, kept under its old name; `sendOpen_view_w` does without) -/
+theorem sendOpen_view {defs : List Def} {ii : Indexed} (h : build defs = some ii)
+    (_hwf : WFAssets defs) {e e' : Exec} (hinv : ExecInv ii e) {o : Open} {client name : Nat}
+    {ev : Events} (hs : sendOpen e o = (e', .mock client name ev))
+    (hu : UniqueNames defs client) (ha : UniqueAssetNames defs client) :
+    ∃ x, ii.instruments[o.instrument]? = some x ∧ x.value.exchange.value = client ∧
+      name = x.value.nameExchange ∧
+      (∀ xx j oc, ev.order = some (xx, j, oc) → xx = o.exchange ∧ j = o.instrument ∧
+        ∀ a, oc = .insufficient a →
+          a = (match o.side with | .buy => x.value.quote | .sell => x.value.base)) ∧
+      (∀ a tot fr, ev.balance = some (a, tot, fr) →
+          a = (match o.side with | .buy => x.value.quote | .sell => x.value.base)) ∧
+      (∀ j sd p q f, ev.trade = some (j, sd, p, q, f) →
+          j = o.instrument ∧ sd = o.side ∧ p = o.price ∧ q = o.qty) :=
+  sendOpen_view_w h hinv hs hu ha
 
 /-! ### composition with the ledger (C08) -/
 
@@ -2042,7 +2101,7 @@ theorem toCfg_wf_iff (c : MockConfig) (t : Table) :
 
 /-- Balances for every asset of the exchange make the C08 configuration well formed (builder
 output, `WFAssets`): every base / quote name of the table is the name of an asset of `ex`. -/
-theorem covers_wf {defs : List Def} {ii : Indexed} (h : build defs = some ii) (hwf : WFAssets defs)
+theorem covers_wf_w {defs : List Def} {ii : Indexed} (h : build defs = some ii)
     (c : MockConfig) {t : Table} (ht : genMockInstruments ii c.exchange = .ok t)
     (hcov : ∀ a ∈ ii.assets, a.value.exchange = c.exchange →
       a.value.asset.nameExchange ∈ c.balances.map (·.1)) :
@@ -2058,7 +2117,7 @@ theorem covers_wf {defs : List Def} {ii : Indexed} (h : build defs = some ii) (h
   have asset : ∀ (b n : Nat), b ∈ x.value.assetRefs →
       (ii.findAsset b).map (·.asset.nameExchange) = some n → n ∈ c.balances.map (·.1) := by
     intro b n hb hn
-    obtain ⟨y, hy, hye⟩ := refs_own_exchange h hwf k x hk b hb
+    obtain ⟨y, hy, hye⟩ := refs_own_exchange_w h k x hk b hb
     have hfa : ii.findAsset b = some y.value := by
       rw [findAsset_eq defs ii h b]; exact asset_at h b y hy
     rw [hfa] at hn
@@ -2066,6 +2125,14 @@ theorem covers_wf {defs : List Def} {ii : Indexed} (h : build defs = some ii) (h
     rw [← hn]
     exact hcov y (List.mem_of_getElem? hy) (by rw [hye, hex])
   exact ⟨asset _ _ (by simp [mem_assetRefs]) h5, asset _ _ (by simp [mem_assetRefs]) h6⟩
+
+/-- (the version with C11's `WFAssets` among the hypotheses, kept under its old name; `covers_wf_w` does without) -/
+theorem covers_wf {defs : List Def} {ii : Indexed} (h : build defs = some ii) (_hwf : WFAssets defs)
+    (c : MockConfig) {t : Table} (ht : genMockInstruments ii c.exchange = .ok t)
+    (hcov : ∀ a ∈ ii.assets, a.value.exchange = c.exchange →
+      a.value.asset.nameExchange ∈ c.balances.map (·.1)) :
+    (toCfg c t).wf = true :=
+  covers_wf_w h c ht hcov
 
 open BarterModel.MockExchange (Cfg Instr Req Trade)
 open BarterModel.MockExchange.Spec
@@ -2193,6 +2260,23 @@ def sigmaOf (m : ExecMap.EMap) (names : List Nat) (a : Nat) : Nat :=
   | some n => (match m.findAssetIndex n with | .ok k => k | .error _ => 0)
   | none => 0
 
+/-- Everything the engine-view specification presupposes of one mock exchange — WITHOUT C11's
+`WFAssets` (theorem review A, C04M-3): an asset index of a builder-made instrument always points at an
+asset entry of the instrument's own exchange (`refs_own_exchange_w`), which is all the index-level
+statements need; `WFAssets` matters only where entries are compared with DEFINITIONS (`round_trip`,
+`refines_definition_spec`). -/
+structure ViewHypW (defs : List Def) (ii : Indexed) (c : MockConfig) (m : ExecMap.EMap) (t : Table) : Prop where
+  build : Index.build defs = some ii
+  un : UniqueNames defs c.exchange
+  ua : UniqueAssetNames defs c.exchange
+  map : ExecMap.genMap (toColl ii) c.exchange = .ok m
+  table : genMockInstruments ii c.exchange = .ok t
+  nodup : (c.balances.map (·.1)).Nodup
+  covers : ∀ a ∈ ii.assets, a.value.exchange = c.exchange →
+    a.value.asset.nameExchange ∈ c.balances.map (·.1)
+  nostray : ∀ n ∈ c.balances.map (·.1), ∃ a ∈ ii.assets, a.value.exchange = c.exchange ∧
+    a.value.asset.nameExchange = n
+
 /-- Everything the engine-view specification presupposes of one mock exchange. -/
 structure ViewHyp (defs : List Def) (ii : Indexed) (c : MockConfig) (m : ExecMap.EMap) (t : Table) : Prop where
   build : Index.build defs = some ii
@@ -2206,6 +2290,10 @@ structure ViewHyp (defs : List Def) (ii : Indexed) (c : MockConfig) (m : ExecMap
     a.value.asset.nameExchange ∈ c.balances.map (·.1)
   nostray : ∀ n ∈ c.balances.map (·.1), ∃ a ∈ ii.assets, a.value.exchange = c.exchange ∧
     a.value.asset.nameExchange = n
+
+theorem ViewHyp.toW {defs : List Def} {ii : Indexed} {c : MockConfig} {m : ExecMap.EMap} {t : Table}
+    (H : ViewHyp defs ii c m t) : ViewHypW defs ii c m t :=
+  ⟨H.build, H.un, H.ua, H.map, H.table, H.nodup, H.covers, H.nostray⟩
 
 theorem find?_of_nodup_fst (l : List (Nat × Rat)) (hn : (l.map (·.1)).Nodup) (p : Nat × Rat) (hp : p ∈ l) :
     l.find? (fun b => b.1 == p.1) = some p := by
@@ -2221,12 +2309,12 @@ theorem find?_of_nodup_fst (l : List (Nat × Rat)) (hn : (l.map (·.1)).Nodup) (
         intro e; exact hn.1 (e ▸ List.mem_map_of_mem ht)
       rw [this]; exact ih hn.2 ht
 
-theorem renames_of_view {defs : List Def} {ii : Indexed} {c : MockConfig} {m : ExecMap.EMap} {t : Table}
-    (H : ViewHyp defs ii c m t) :
+theorem renames_of_view_w {defs : List Def} {ii : Indexed} {c : MockConfig} {m : ExecMap.EMap} {t : Table}
+    (H : ViewHypW defs ii c m t) :
     Renames (toCfg c t) (specCfg ii c) (tauOf m t) (sigmaOf m (c.balances.map (·.1))) := by
   have hW := wf_toColl H.build c.exchange H.un H.ua
   have hA := ExecMap.agreesRev_of_wf hW H.map
-  have hwf : (toCfg c t).wf = true := covers_wf H.build H.wfa c H.table H.covers
+  have hwf : (toCfg c t).wf = true := covers_wf_w H.build c H.table H.covers
   have hkeys : (t.map (·.1)).Nodup := by
     obtain ⟨pairs, _, rfl⟩ := (genMock_ok_iff ii c.exchange t).mp H.table
     exact collectG_keys_nodup pairs
@@ -2247,7 +2335,7 @@ theorem renames_of_view {defs : List Def} {ii : Indexed} {c : MockConfig} {m : E
       obtain ⟨i, hi, _, hn, hnat⟩ := genMock_mem ii c.exchange t H.table (n, e) hmem
       obtain ⟨x, hx, hex, rfl⟩ := (mem_ofExchange ii c.exchange i).mp hi
       obtain ⟨k, hk⟩ := List.mem_iff_getElem?.mp hx
-      obtain ⟨_, h2, e', he', hn', hb, hq⟩ := own_view H.build c.exchange H.wfa H.un H.ua H.map H.table hk hex
+      obtain ⟨_, h2, e', he', hn', hb, hq⟩ := own_view_w H.build c.exchange H.un H.ua H.map H.table hk hex
       simp only at hn hnat
       have hee : e' = e := by rw [hnat] at hn'; injection hn' with hn'; exact hn'.symm
       subst hee
@@ -2303,6 +2391,11 @@ theorem renames_of_view {defs : List Def} {ii : Indexed} {c : MockConfig} {m : E
     have : (c.balances.map (·.1))[a]? = (c.balances.map (·.1))[b]? := by rw [ga, gb, ← hyn1, ← hyn2]
     exact (List.getElem?_inj la H.nodup).mp this
 
+/-- (the version with C11's `WFAssets` among the hypotheses, kept under its old name; `renames_of_view_w` does without) -/
+theorem renames_of_view {defs : List Def} {ii : Indexed} {c : MockConfig} {m : ExecMap.EMap} {t : Table}
+    (H : ViewHyp defs ii c m t) :
+    Renames (toCfg c t) (specCfg ii c) (tauOf m t) (sigmaOf m (c.balances.map (·.1))) :=
+  renames_of_view_w H.toW
 
 theorem exchangeTime_eq (ii : Indexed) (c : MockConfig) (t : Table) (x : Int) :
     MockExchange.exchangeTime (specCfg ii c) x = MockExchange.exchangeTime (toCfg c t) x := rfl
@@ -2313,8 +2406,8 @@ the mocked exchange: what arrives on the account channel is exactly what the ind
 specification `specObserve` prescribes given the accepted orders so far (renamed to indices) — the
 same asset INDEX, the same amount, the fill on the same instrument INDEX — or nothing when it
 prescribes nothing; and the accepted-order history advances in step. -/
-theorem mockOpen_refines_view {defs : List Def} {ii : Indexed} {c : MockConfig} {m : ExecMap.EMap}
-    {t : Table} (H : ViewHyp defs ii c m t) {mt : MockTask} {ops : List (Int × MockExchange.Request)}
+theorem mockOpen_refines_view_w {defs : List Def} {ii : Indexed} {c : MockConfig} {m : ExecMap.EMap}
+    {t : Table} (H : ViewHypW defs ii c m t) {mt : MockTask} {ops : List (Int × MockExchange.Request)}
     (hh : MockHist mt c ops) (htab : mt.table = t) (hd : mt.dead = false)
     {i : Nat} {x : Keyed Nat IInstrument} (hx : ii.instruments[i]? = some x)
     (hex : x.value.exchange.value = c.exchange) (o : Open) (ho : o.instrument = i) :
@@ -2334,9 +2427,9 @@ theorem mockOpen_refines_view {defs : List Def} {ii : Indexed} {c : MockConfig} 
       (if (specObserve ii c accI o).isSome then
         ⟨MockExchange.exchangeTime (specCfg ii c) 0, specReq o⟩ :: accI else accI) := by
   intro accN accI
-  have hR := renames_of_view H
-  have hwf : (toCfg c t).wf = true := covers_wf H.build H.wfa c H.table H.covers
-  obtain ⟨_, h2, e, he, _, hb, hq⟩ := own_view H.build c.exchange H.wfa H.un H.ua H.map H.table hx hex
+  have hR := renames_of_view_w H
+  have hwf : (toCfg c t).wf = true := covers_wf_w H.build c H.table H.covers
+  obtain ⟨_, h2, e, he, _, hb, hq⟩ := own_view_w H.build c.exchange H.un H.ua H.map H.table hx hex
   -- the request as the mock exchange sees it, and its renaming
   obtain ⟨n, hn⟩ : ∃ n, n = x.value.nameExchange := ⟨_, rfl⟩
   rw [← hn] at he h2 ⊢
@@ -2444,6 +2537,29 @@ theorem mockOpen_refines_view {defs : List Def} {ii : Indexed} {c : MockConfig} 
       simp only [hf', if_false, h1, Bool.false_eq_true]
       rfl
 
+/-- (the version with C11's `WFAssets` among the hypotheses, kept under its old name; `mockOpen_refines_view_w` does without) -/
+theorem mockOpen_refines_view {defs : List Def} {ii : Indexed} {c : MockConfig} {m : ExecMap.EMap}
+    {t : Table} (H : ViewHyp defs ii c m t) {mt : MockTask} {ops : List (Int × MockExchange.Request)}
+    (hh : MockHist mt c ops) (htab : mt.table = t) (hd : mt.dead = false)
+    {i : Nat} {x : Keyed Nat IInstrument} (hx : ii.instruments[i]? = some x)
+    (hex : x.value.exchange.value = c.exchange) (o : Open) (ho : o.instrument = i) :
+    let accN := accepted (toCfg c t) (MockExchange.opens (toCfg c t) ops)
+    let accI := accN.map (renEv (tauOf m t))
+    (match specObserve ii c accI o with
+      | some (a, b, tr) =>
+        (mockOpen m mt x.value.nameExchange o).2.balance = some (a, b, b) ∧
+        (mockOpen m mt x.value.nameExchange o).2.trade = some (tr.instr, tr.side, tr.price, tr.qty, tr.fees) ∧
+        tr.instr = i ∧
+        (mockOpen m mt x.value.nameExchange o).2.order =
+          some (m.exchange.key, i, if o.qty - tr.qty = 0 then .filled else .active)
+      | none => (mockOpen m mt x.value.nameExchange o).2.balance = none ∧
+          (mockOpen m mt x.value.nameExchange o).2.trade = none) ∧
+    (accepted (toCfg c t) (MockExchange.opens (toCfg c t)
+        (ops ++ [(0, .openOrder (mockReq t x.value.nameExchange o))]))).map (renEv (tauOf m t)) =
+      (if (specObserve ii c accI o).isSome then
+        ⟨MockExchange.exchangeTime (specCfg ii c) 0, specReq o⟩ :: accI else accI) :=
+  mockOpen_refines_view_w H.toW hh htab hd hx hex o ho
+
 /-- A live mock task of configuration `c` / table `t` represents the index-level history `acc`. -/
 def ViewInv (c : MockConfig) (m : ExecMap.EMap) (t : Table) (mt : MockTask) (acc : List Ev) : Prop :=
   ∃ ops, MockHist mt c ops ∧ mt.table = t ∧ mt.dead = false ∧
@@ -2457,8 +2573,8 @@ theorem viewInv_spawn (c : MockConfig) (m : ExecMap.EMap) (t : Table) (chan : Na
 def Own (ii : Indexed) (c : MockConfig) (o : Open) : Prop :=
   ∃ x, ii.instruments[o.instrument]? = some x ∧ x.value.exchange.value = c.exchange
 
-theorem viewInv_step {defs : List Def} {ii : Indexed} {c : MockConfig} {m : ExecMap.EMap}
-    {t : Table} (H : ViewHyp defs ii c m t) {mt : MockTask} {acc : List Ev}
+theorem viewInv_step_w {defs : List Def} {ii : Indexed} {c : MockConfig} {m : ExecMap.EMap}
+    {t : Table} (H : ViewHypW defs ii c m t) {mt : MockTask} {acc : List Ev}
     (hv : ViewInv c m t mt acc) (o : Open) (ho : Own ii c o) :
     ViewInv c m t (mockOpen m mt (nameOf ii o) o).1 (specNext ii c acc o) ∧
     (match specObserve ii c acc o with
@@ -2473,8 +2589,8 @@ theorem viewInv_step {defs : List Def} {ii : Indexed} {c : MockConfig} {m : Exec
   obtain ⟨ops, hh, htab, hd, hacc⟩ := hv
   obtain ⟨x, hx, hex⟩ := ho
   have hname : nameOf ii o = x.value.nameExchange := by simp [nameOf, hx]
-  have hwf : (toCfg c t).wf = true := covers_wf H.build H.wfa c H.table H.covers
-  obtain ⟨hobs, hhist⟩ := mockOpen_refines_view H hh htab hd hx hex o rfl
+  have hwf : (toCfg c t).wf = true := covers_wf_w H.build c H.table H.covers
+  obtain ⟨hobs, hhist⟩ := mockOpen_refines_view_w H hh htab hd hx hex o rfl
   rw [hacc] at hobs hhist
   rw [hname]
   refine ⟨⟨ops ++ [(0, .openOrder (mockReq mt.table x.value.nameExchange o))], ?_, ?_, ?_, ?_⟩, hobs⟩
@@ -2492,17 +2608,40 @@ theorem viewInv_step {defs : List Def} {ii : Indexed} {c : MockConfig} {m : Exec
       exact absurd this (MockExchange.openOrder_no_panic (MockExchange.updateTime_wf 0 hWF) _)
   · rw [htab, hhist]; rfl
 
+/-- (the version with C11's `WFAssets` among the hypotheses, kept under its old name; `viewInv_step_w` does without) -/
+theorem viewInv_step {defs : List Def} {ii : Indexed} {c : MockConfig} {m : ExecMap.EMap}
+    {t : Table} (H : ViewHyp defs ii c m t) {mt : MockTask} {acc : List Ev}
+    (hv : ViewInv c m t mt acc) (o : Open) (ho : Own ii c o) :
+    ViewInv c m t (mockOpen m mt (nameOf ii o) o).1 (specNext ii c acc o) ∧
+    (match specObserve ii c acc o with
+      | some (a, b, tr) =>
+        (mockOpen m mt (nameOf ii o) o).2.balance = some (a, b, b) ∧
+        (mockOpen m mt (nameOf ii o) o).2.trade = some (tr.instr, tr.side, tr.price, tr.qty, tr.fees) ∧
+        tr.instr = o.instrument ∧
+        (mockOpen m mt (nameOf ii o) o).2.order =
+          some (m.exchange.key, o.instrument, if o.qty - tr.qty = 0 then .filled else .active)
+      | none => (mockOpen m mt (nameOf ii o) o).2.balance = none ∧
+          (mockOpen m mt (nameOf ii o) o).2.trade = none) :=
+  viewInv_step_w H.toW hv o ho
+
 /-- Whole histories: after any list of own orders the task still represents the specification's
 history, and the next observation is the specification's. -/
-theorem viewInv_run {defs : List Def} {ii : Indexed} {c : MockConfig} {m : ExecMap.EMap}
-    {t : Table} (H : ViewHyp defs ii c m t) (os : List Open) (hos : ∀ o ∈ os, Own ii c o)
+theorem viewInv_run_w {defs : List Def} {ii : Indexed} {c : MockConfig} {m : ExecMap.EMap}
+    {t : Table} (H : ViewHypW defs ii c m t) (os : List Open) (hos : ∀ o ∈ os, Own ii c o)
     {mt : MockTask} {acc : List Ev} (hv : ViewInv c m t mt acc) :
     ViewInv c m t (mockRun ii m mt os) (os.foldl (specNext ii c) acc) := by
   induction os generalizing mt acc with
   | nil => exact hv
   | cons o rest ih =>
     simp only [mockRun, List.foldl_cons]
-    exact ih (fun o' ho' => hos o' (List.mem_cons_of_mem _ ho')) (viewInv_step H hv o (hos o (by simp))).1
+    exact ih (fun o' ho' => hos o' (List.mem_cons_of_mem _ ho')) (viewInv_step_w H hv o (hos o (by simp))).1
+
+/-- (the version with C11's `WFAssets` among the hypotheses, kept under its old name; `viewInv_run_w` does without) -/
+theorem viewInv_run {defs : List Def} {ii : Indexed} {c : MockConfig} {m : ExecMap.EMap}
+    {t : Table} (H : ViewHyp defs ii c m t) (os : List Open) (hos : ∀ o ∈ os, Own ii c o)
+    {mt : MockTask} {acc : List Ev} (hv : ViewInv c m t mt acc) :
+    ViewInv c m t (mockRun ii m mt os) (os.foldl (specNext ii c) acc) :=
+  viewInv_run_w H.toW os hos hv
 
 end BarterModel.MockInstruments
 
@@ -2548,8 +2687,8 @@ open BarterModel.MockExchange.Spec
 the index-level specification prescribes no fill, the order snapshot that comes back carries the
 request's own (exchange index, instrument index) and the reason `specOutcome` names — `rejected`
 for a non-market order, otherwise `insufficient` with the asset INDEX the order would have spent. -/
-theorem mockOpen_reject_outcome {defs : List Def} {ii : Indexed} {c : MockConfig} {m : ExecMap.EMap}
-    {t : Table} (H : ViewHyp defs ii c m t) {mt : MockTask} {ops : List (Int × MockExchange.Request)}
+theorem mockOpen_reject_outcome_w {defs : List Def} {ii : Indexed} {c : MockConfig} {m : ExecMap.EMap}
+    {t : Table} (H : ViewHypW defs ii c m t) {mt : MockTask} {ops : List (Int × MockExchange.Request)}
     (hh : MockHist mt c ops) (htab : mt.table = t) (hd : mt.dead = false)
     {i : Nat} {x : Keyed Nat IInstrument} (hx : ii.instruments[i]? = some x)
     (hex : x.value.exchange.value = c.exchange) (o : Open) (ho : o.instrument = i) :
@@ -2558,9 +2697,9 @@ theorem mockOpen_reject_outcome {defs : List Def} {ii : Indexed} {c : MockConfig
     specObserve ii c accI o = none →
       (mockOpen m mt x.value.nameExchange o).2.order = some (m.exchange.key, i, specOutcome ii c accI o) := by
   intro accN accI hnone
-  have hR := renames_of_view H
-  have hwf : (toCfg c t).wf = true := covers_wf H.build H.wfa c H.table H.covers
-  obtain ⟨_, h2, e, he, _, hb, hq⟩ := own_view H.build c.exchange H.wfa H.un H.ua H.map H.table hx hex
+  have hR := renames_of_view_w H
+  have hwf : (toCfg c t).wf = true := covers_wf_w H.build c H.table H.covers
+  obtain ⟨_, h2, e, he, _, hb, hq⟩ := own_view_w H.build c.exchange H.un H.ua H.map H.table hx hex
   obtain ⟨n, hn⟩ : ∃ n, n = x.value.nameExchange := ⟨_, rfl⟩
   rw [← hn] at he h2 ⊢
   let req := mockReq t n o
@@ -2635,6 +2774,17 @@ theorem mockOpen_reject_outcome {defs : List Def} {ii : Indexed} {c : MockConfig
     unfold mockOpen
     simp only [hd, Bool.false_eq_true, if_false, h21, hkey, hout, Option.map_some]
 
+/-- (the version with C11's `WFAssets` among the hypotheses, kept under its old name; `mockOpen_reject_outcome_w` does without) -/
+theorem mockOpen_reject_outcome {defs : List Def} {ii : Indexed} {c : MockConfig} {m : ExecMap.EMap}
+    {t : Table} (H : ViewHyp defs ii c m t) {mt : MockTask} {ops : List (Int × MockExchange.Request)}
+    (hh : MockHist mt c ops) (htab : mt.table = t) (hd : mt.dead = false)
+    {i : Nat} {x : Keyed Nat IInstrument} (hx : ii.instruments[i]? = some x)
+    (hex : x.value.exchange.value = c.exchange) (o : Open) (ho : o.instrument = i) :
+    let accN := accepted (toCfg c t) (MockExchange.opens (toCfg c t) ops)
+    let accI := accN.map (renEv (tauOf m t))
+    specObserve ii c accI o = none →
+      (mockOpen m mt x.value.nameExchange o).2.order = some (m.exchange.key, i, specOutcome ii c accI o) :=
+  mockOpen_reject_outcome_w H.toW hh htab hd hx hex o ho
 
 theorem nodup_of_nodup_map {α β : Type} (f : α → β) (l : List α) (h : (l.map f).Nodup) : l.Nodup := by
   induction l with
@@ -2698,8 +2848,8 @@ theorem mapO_nodup {α β : Type} (f : α → Option β) (l : List α) (r : List
 
 /-- Under `ViewHyp` the manager's map sends the exchange name of every asset of the mocked exchange
 to that asset's own index (= its position in the asset table). -/
-theorem view_asset_index {defs : List Def} {ii : Indexed} {c : MockConfig} {m : ExecMap.EMap}
-    {t : Table} (H : ViewHyp defs ii c m t) (k : Nat) (y : Keyed Nat ExchangeAsset)
+theorem view_asset_index_w {defs : List Def} {ii : Indexed} {c : MockConfig} {m : ExecMap.EMap}
+    {t : Table} (H : ViewHypW defs ii c m t) (k : Nat) (y : Keyed Nat ExchangeAsset)
     (hk : ii.assets[k]? = some y) (hye : y.value.exchange = c.exchange) :
     m.findAssetIndex y.value.asset.nameExchange = .ok k ∧ y.key = k := by
   have hW := wf_toColl H.build c.exchange H.un H.ua
@@ -2714,13 +2864,20 @@ theorem view_asset_index {defs : List Def} {ii : Indexed} {c : MockConfig} {m : 
     | none => simp [hs] at hk
     | some a => simp [hs] at hk; rw [← hk]
 
+/-- (the version with C11's `WFAssets` among the hypotheses, kept under its old name; `view_asset_index_w` does without) -/
+theorem view_asset_index {defs : List Def} {ii : Indexed} {c : MockConfig} {m : ExecMap.EMap}
+    {t : Table} (H : ViewHyp defs ii c m t) (k : Nat) (y : Keyed Nat ExchangeAsset)
+    (hk : ii.assets[k]? = some y) (hye : y.value.exchange = c.exchange) :
+    m.findAssetIndex y.value.asset.nameExchange = .ok k ∧ y.key = k :=
+  view_asset_index_w H.toW k y hk hye
+
 /-- **The initial account snapshot, engine view** (spec key `snap<x>`, oracle review C04-M2 / T1).
 Under `ViewHyp`, the snapshot the manager of the mocked exchange hands the engine at start-up (the
 configured balances, each exchange NAME translated to an asset index through the manager's map) is,
 up to order, `specSnapshot`: for every asset INDEX of that exchange the amount configured for it —
 no asset of the exchange missing, none of another exchange, none twice. -/
-theorem initSnapshot_refines_view {defs : List Def} {ii : Indexed} {c : MockConfig} {m : ExecMap.EMap}
-    {t : Table} (H : ViewHyp defs ii c m t) (mocks : List MockFuture) (f : InitFuture) (chan : Nat)
+theorem initSnapshot_refines_view_w {defs : List Def} {ii : Indexed} {c : MockConfig} {m : ExecMap.EMap}
+    {t : Table} (H : ViewHypW defs ii c m t) (mocks : List MockFuture) (f : InitFuture) (chan : Nat)
     (hf : f.client = .mock chan) (hm : f.map = m)
     (hfind : mocks.find? (fun mf => mf.chan == chan) = some ⟨chan, c, t⟩) :
     ∃ l, initSnapshot mocks f = some l ∧ l.Perm (specSnapshot ii c) := by
@@ -2738,7 +2895,7 @@ theorem initSnapshot_refines_view {defs : List Def} {ii : Indexed} {c : MockConf
     intro b hb
     obtain ⟨y, hy, hye, hyn⟩ := H.nostray b.1 (List.mem_map_of_mem (f := (·.1)) hb)
     obtain ⟨k, hk⟩ := List.mem_iff_getElem?.mp hy
-    have := (view_asset_index H k y hk hye).1
+    have := (view_asset_index_w H k y hk hye).1
     refine ⟨k, y, hk, hye, hyn, ?_⟩
     simp only [g, ← hyn, this]
   obtain ⟨l, hl⟩ := mapO_total g c.balances (fun b hb => by
@@ -2782,7 +2939,7 @@ theorem initSnapshot_refines_view {defs : List Def} {ii : Indexed} {c : MockConf
     obtain ⟨k, y, hk, hye, hyn, hg⟩ := hname b hb
     rw [hg] at hgb; injection hgb with hgb
     refine ⟨y, ⟨List.mem_of_getElem? hk, hye⟩, ?_⟩
-    rw [← hgb, (view_asset_index H k y hk hye).2]
+    rw [← hgb, (view_asset_index_w H k y hk hye).2]
     have hfind' := find?_of_nodup_fst c.balances H.nodup b hb
     simp only [specInitial, hye, if_true, hyn, hfind']
   · rintro ⟨y, ⟨hy, hye⟩, rfl⟩
@@ -2793,8 +2950,912 @@ theorem initSnapshot_refines_view {defs : List Def} {ii : Indexed} {c : MockConf
     simp only at hb1
     subst hb1
     refine ⟨(_, amt), hb, ?_⟩
-    have hv := view_asset_index H k y hk hye
+    have hv := view_asset_index_w H k y hk hye
     have hfind' := find?_of_nodup_fst c.balances H.nodup _ hb
     simp only [g, hv.1, hv.2, specInitial, hye, if_true, hfind']
+
+/-- (the version with C11's `WFAssets` among the hypotheses, kept under its old name; `initSnapshot_refines_view_w` does without) -/
+theorem initSnapshot_refines_view {defs : List Def} {ii : Indexed} {c : MockConfig} {m : ExecMap.EMap}
+    {t : Table} (H : ViewHyp defs ii c m t) (mocks : List MockFuture) (f : InitFuture) (chan : Nat)
+    (hf : f.client = .mock chan) (hm : f.map = m)
+    (hfind : mocks.find? (fun mf => mf.chan == chan) = some ⟨chan, c, t⟩) :
+    ∃ l, initSnapshot mocks f = some l ∧ l.Perm (specSnapshot ii c) :=
+  initSnapshot_refines_view_w H.toW mocks f chan hf hm hfind
+
+/-! ## Composition (theorem review A, C04M-1): in the BUILT system, the mock exchange task behind a
+link is the isolated `mockRun` of that exchange on the requests routed to it. -/
+
+
+/-- What `sendOpen` never changes of a manager task. -/
+def skelM (m : ManagerTask) : Nat × ExecMap.EMap × Client := (m.exchange, m.map, m.client)
+
+/-- Is the manager of exchange id `ex` still running? -/
+def mgrAlive (e : Exec) (ex : Nat) : Bool :=
+  match e.managers.find? (fun m => m.exchange == ex) with
+  | some mg => mg.alive
+  | none => false
+
+/-- The mock exchange task holding the exchange ends of channel pair `chan`. -/
+def mockOf (e : Exec) (chan : Nat) : Option MockTask := e.mocks.find? (fun t => t.chan == chan)
+
+theorem openOrder_latency (s : MockExchange.State) (r : MockExchange.Req) :
+    (MockExchange.openOrder s r).1.latency = s.latency := by
+  rcases MockExchange.openOrder_cases s r with ⟨_, h⟩ | ⟨_, _, h⟩ | ⟨u, _, _, _, h⟩ | ⟨u, c, _, _, _, _, h⟩ |
+    ⟨u, c, _, _, _, _, _, h⟩ | ⟨u, c, _, _, _, _, _, h⟩ <;> rw [h]
+
+theorem step_latency (s : MockExchange.State) (t : Int) (rq : MockExchange.Request) :
+    (MockExchange.step s t rq).1.latency = s.latency := by
+  cases rq with
+  | openOrder r =>
+    by_cases h : ∃ f, (MockExchange.openOrder (MockExchange.updateTime s t) r).2 = .accepted f
+    · obtain ⟨f, hf⟩ := h
+      rw [MockExchange.step_open_accepted hf]
+      simp only [MockExchange.ackTrade, openOrder_latency]
+      simp [MockExchange.updateTime]
+    · rw [MockExchange.step_open_not_accepted (fun f hf => h ⟨f, hf⟩)]
+      simp only [openOrder_latency]
+      simp [MockExchange.updateTime]
+  | _ => simp [MockExchange.step, MockExchange.updateTime]
+
+theorem run_latency (s : MockExchange.State) (ops : List (Int × MockExchange.Request)) :
+    (MockExchange.run s ops).latency = s.latency :=
+  MockExchange.run_inv (P := fun s' => s'.latency = s.latency)
+    (fun s' t rq h => by rw [step_latency]; exact h) rfl ops
+
+/-- The latency a mock task answers with is the configured one, whatever it has seen. -/
+theorem mockHist_latency {mt : MockTask} {c : MockConfig} {ops : List (Int × MockExchange.Request)}
+    (h : MockHist mt c ops) : mt.st.latency = c.latency := by
+  rw [h.st, run_latency]; rfl
+
+theorem mockOpen_chan (map : ExecMap.EMap) (m : MockTask) (name : Nat) (o : Open) :
+    (mockOpen map m name o).1.chan = m.chan := by
+  rcases mockOpen_fst map m name o with h | ⟨st', d, h, _, _⟩ <;> rw [h]
+
+/-! ### what `sendOpen` never changes -/
+
+theorem sendOpen_txmap (e : Exec) (o : Open) : (sendOpen e o).1.txmap = e.txmap := by
+  unfold sendOpen
+  repeat' split
+  all_goals rfl
+
+theorem setManager_skel (ms : List ManagerTask) (ex : Nat) :
+    (setManager ms ex fun m => { m with alive := false }).map skelM = ms.map skelM := by
+  simp only [setManager, List.map_map]
+  apply List.map_congr_left
+  intro a _
+  simp only [Function.comp]
+  split <;> rfl
+
+theorem sendOpen_managers_skel (e : Exec) (o : Open) :
+    (sendOpen e o).1.managers.map skelM = e.managers.map skelM := by
+  unfold sendOpen
+  repeat' split
+  all_goals first | rfl | exact setManager_skel _ _
+
+theorem setMock_chan (ms : List MockTask) (chan : Nat) (mt' : MockTask) (h : mt'.chan = chan) :
+    (setMock ms chan fun _ => mt').map (·.chan) = ms.map (·.chan) := by
+  simp only [setMock, List.map_map]
+  apply List.map_congr_left
+  intro a _
+  simp only [Function.comp]
+  split
+  · rename_i hac; rw [h, hac]
+  · rfl
+
+theorem sendOpen_mocks_chan (e : Exec) (o : Open) :
+    (sendOpen e o).1.mocks.map (·.chan) = e.mocks.map (·.chan) := by
+  unfold sendOpen
+  split
+  · rfl
+  · split
+    · rfl
+    · rename_i mg hmg
+      split
+      · rfl
+      · split
+        · rfl
+        · rename_i r hr
+          split
+          · rfl
+          · rename_i chan hchan
+            split
+            · rfl
+            · rename_i mt hmt
+              have hmtc : mt.chan = chan := by simpa using List.find?_some hmt
+              exact setMock_chan _ _ _ (by rw [mockOpen_chan, hmtc])
+
+/-! ### one link of the running system -/
+
+/-- What the composition needs to know of the link of exchange id `ex` (exchange index `xi`, map `m`,
+mock client on channel pair `chan`); every clause is about parts of the state no request changes. -/
+structure LinkInv (xi ex chan : Nat) (m : ExecMap.EMap) (e : Exec) : Prop where
+  find_own : ∃ l, e.txmap.find xi = .ok l ∧ l.client = ex
+  find_other : ∀ x l, e.txmap.find x = .ok l → l.client = ex → x = xi
+  mgr : (e.managers.map skelM).find? (fun s => s.1 == ex) = some (ex, m, .mock chan)
+  chan_only : ∀ s ∈ e.managers.map skelM, s.2.2 = .mock chan → s.1 = ex
+
+theorem linkInv_sendOpen {xi ex chan : Nat} {m : ExecMap.EMap} {e : Exec}
+    (h : LinkInv xi ex chan m e) (o : Open) : LinkInv xi ex chan m (sendOpen e o).1 := by
+  refine ⟨?_, ?_, ?_, ?_⟩
+  · rw [sendOpen_txmap]; exact h.find_own
+  · rw [sendOpen_txmap]; exact h.find_other
+  · rw [sendOpen_managers_skel]; exact h.mgr
+  · rw [sendOpen_managers_skel]; exact h.chan_only
+
+theorem find?_skel (ms : List ManagerTask) (ex : Nat) :
+    (ms.map skelM).find? (fun s => s.1 == ex) = (ms.find? (fun m => m.exchange == ex)).map skelM := by
+  rw [List.find?_map]; rfl
+
+/-- The manager the link's transmitter leads to. -/
+theorem linkInv_manager {xi ex chan : Nat} {m : ExecMap.EMap} {e : Exec} (h : LinkInv xi ex chan m e) :
+    ∃ mg, e.managers.find? (fun m => m.exchange == ex) = some mg ∧ mg.exchange = ex ∧ mg.map = m ∧
+      mg.client = .mock chan ∧ mgrAlive e ex = mg.alive := by
+  have := h.mgr
+  rw [find?_skel] at this
+  cases hf : e.managers.find? (fun m => m.exchange == ex) with
+  | none => rw [hf] at this; cases this
+  | some mg =>
+    rw [hf] at this
+    simp only [Option.map_some, Option.some.injEq, skelM, Prod.mk.injEq] at this
+    exact ⟨mg, rfl, this.1, this.2.1, this.2.2, by simp [mgrAlive, hf]⟩
+
+theorem find?_map_frame {α : Type} (l : List α) (g : α → α) (p : α → Bool) (hp : ∀ a, p (g a) = p a) :
+    (l.map g).find? p = (l.find? p).map g := by
+  rw [List.find?_map]
+  have : p ∘ g = p := funext hp
+  rw [this]
+
+theorem find?_map_fix {α : Type} (l : List α) (g : α → α) (p : α → Bool) (hp : ∀ a, p (g a) = p a)
+    (hfix : ∀ a, p a = true → g a = a) : (l.map g).find? p = l.find? p := by
+  rw [find?_map_frame l g p hp]
+  cases h : l.find? p with
+  | none => rfl
+  | some a => simp [hfix a (List.find?_some h)]
+
+theorem find?_setManager_other (ms : List ManagerTask) (ex ex' : Nat) (f : ManagerTask → ManagerTask)
+    (hf : ∀ m, (f m).exchange = m.exchange) (hne : ex' ≠ ex) :
+    (setManager ms ex' f).find? (fun m => m.exchange == ex) = ms.find? (fun m => m.exchange == ex) := by
+  unfold setManager
+  apply find?_map_fix
+  · intro a
+    by_cases hc : a.exchange = ex' <;> simp [hc, hf]
+  · intro a ha
+    have : a.exchange = ex := by simpa using ha
+    have hn : ¬ a.exchange = ex' := by rw [this]; exact fun e => hne e.symm
+    simp only [hn, if_false]
+
+theorem find?_setManager_own (ms : List ManagerTask) (ex : Nat) (f : ManagerTask → ManagerTask)
+    (hf : ∀ m, (f m).exchange = m.exchange) :
+    (setManager ms ex f).find? (fun m => m.exchange == ex) = (ms.find? (fun m => m.exchange == ex)).map f := by
+  unfold setManager
+  rw [find?_map_frame]
+  · cases h : ms.find? (fun m => m.exchange == ex) with
+    | none => rfl
+    | some a =>
+      have : a.exchange = ex := by simpa using List.find?_some h
+      simp [this]
+  · intro a
+    by_cases hc : a.exchange = ex <;> simp [hc, hf]
+
+theorem find?_setMock_other (ms : List MockTask) (chan chan' : Nat) (mt' : MockTask) (h : mt'.chan = chan')
+    (hne : chan' ≠ chan) :
+    (setMock ms chan' fun _ => mt').find? (fun t => t.chan == chan) = ms.find? (fun t => t.chan == chan) := by
+  unfold setMock
+  apply find?_map_fix
+  · intro a
+    by_cases hc : a.chan = chan' <;> simp [hc, h]
+  · intro a ha
+    have : a.chan = chan := by simpa using ha
+    have hn : ¬ a.chan = chan' := by rw [this]; exact fun e => hne e.symm
+    simp only [hn, if_false]
+
+theorem find?_setMock_own (ms : List MockTask) (chan : Nat) (mt mt' : MockTask) (h : mt'.chan = chan)
+    (hfind : ms.find? (fun t => t.chan == chan) = some mt) :
+    (setMock ms chan fun _ => mt').find? (fun t => t.chan == chan) = some mt' := by
+  unfold setMock
+  rw [find?_map_frame]
+  · have : mt.chan = chan := by simpa using List.find?_some hfind
+    simp [hfind, this]
+  · intro a
+    by_cases hc : a.chan = chan <;> simp [hc, h]
+
+/-- (frame) a request addressed to ANOTHER exchange index changes neither the manager nor the mock
+exchange task of this link. -/
+theorem sendOpen_other_link {xi ex chan : Nat} {m : ExecMap.EMap} {e : Exec}
+    (h : LinkInv xi ex chan m e) (o : Open) (hne : o.exchange ≠ xi) :
+    mgrAlive (sendOpen e o).1 ex = mgrAlive e ex ∧ mockOf (sendOpen e o).1 chan = mockOf e chan := by
+  unfold sendOpen
+  split
+  · exact ⟨rfl, rfl⟩
+  · rename_i l hl
+    have hlc : l.client ≠ ex := fun hc => hne (h.find_other _ _ hl hc)
+    split
+    · exact ⟨rfl, rfl⟩
+    · rename_i mg hmg
+      have hmge : mg.exchange = l.client := by simpa using List.find?_some hmg
+      have hmgm := List.mem_of_find?_eq_some hmg
+      split
+      · exact ⟨rfl, rfl⟩
+      · split
+        · refine ⟨?_, rfl⟩
+          simp only [mgrAlive]
+          rw [find?_setManager_other e.managers ex mg.exchange (fun m => { m with alive := false }) (fun _ => rfl)
+            (by rw [hmge]; exact hlc)]
+        · split
+          · exact ⟨rfl, rfl⟩
+          · rename_i chan' hchan'
+            split
+            · exact ⟨rfl, rfl⟩
+            · rename_i mt hmt
+              refine ⟨rfl, ?_⟩
+              have hmtc : mt.chan = chan' := by simpa using List.find?_some hmt
+              have hcc : chan' ≠ chan := by
+                intro hc
+                have := h.chan_only (skelM mg) (List.mem_map_of_mem hmgm) (by simp [skelM, hchan', hc])
+                simp only [skelM] at this
+                exact hlc (by rw [← hmge, this])
+              simp only [mockOf]
+              exact find?_setMock_other _ _ _ _ (by rw [mockOpen_chan, hmtc]) hcc
+
+/-- (own link) a request addressed to THIS exchange index: refused when the manager is gone; the
+manager dies on a key it cannot translate; otherwise the request reaches this link's mock exchange
+task — and only it — addressed as the manager addresses it. -/
+theorem sendOpen_own_link {xi ex chan : Nat} {m : ExecMap.EMap} {e : Exec}
+    (h : LinkInv xi ex chan m e) (o : Open) (hx : o.exchange = xi) {mt : MockTask}
+    (hmt : mockOf e chan = some mt) :
+    (mgrAlive e ex = false → sendOpen e o = (e, .closed)) ∧
+    (mgrAlive e ex = true →
+      match ExecMap.managerClientRequest m
+          { key := { exchange := o.exchange, instrument := o.instrument, cid := o.cid }, state := 0 } with
+      | none => (sendOpen e o).2 = .managerPanic ∧ mgrAlive (sendOpen e o).1 ex = false ∧
+          mockOf (sendOpen e o).1 chan = some mt
+      | some r => (sendOpen e o).2 = .mock r.key.exchange r.key.instrument (mockOpen m mt r.key.instrument o).2 ∧
+          mgrAlive (sendOpen e o).1 ex = true ∧
+          mockOf (sendOpen e o).1 chan = some (mockOpen m mt r.key.instrument o).1) := by
+  obtain ⟨l, hl, hlc⟩ := h.find_own
+  obtain ⟨mg, hmg, hmge, hmgmap, hmgc, hal⟩ := linkInv_manager h
+  rw [← hx] at hl
+  rw [← hlc] at hmg
+  simp only [mockOf] at hmt
+  constructor
+  · intro hd
+    rw [hal] at hd
+    unfold sendOpen
+    simp only [hl, hmg, hd, Bool.not_false, if_true]
+  · intro ha
+    rw [hal] at ha
+    cases hr : ExecMap.managerClientRequest m
+        { key := { exchange := o.exchange, instrument := o.instrument, cid := o.cid }, state := 0 } with
+    | none =>
+      simp only
+      have hs : sendOpen e o =
+          ({ e with managers := setManager e.managers mg.exchange fun m => { m with alive := false } },
+           .managerPanic) := by
+        unfold sendOpen
+        simp only [hl, hmg, ha, Bool.not_true, Bool.false_eq_true, if_false, hmgmap, hr]
+      rw [hs]
+      refine ⟨rfl, ?_, ?_⟩
+      · simp only [mgrAlive]
+        rw [hmge, find?_setManager_own e.managers ex (fun m => { m with alive := false }) (fun _ => rfl), ← hlc, hmg]
+        rfl
+      · simp only [mockOf]; exact hmt
+    | some r =>
+      simp only
+      have hs : sendOpen e o =
+          ({ e with mocks := setMock e.mocks chan fun _ => (mockOpen m mt r.key.instrument o).1 },
+           .mock r.key.exchange r.key.instrument (mockOpen m mt r.key.instrument o).2) := by
+        unfold sendOpen
+        simp only [hl, hmg, ha, Bool.not_true, Bool.false_eq_true, if_false, hmgmap, hr, hmgc, hmt]
+      rw [hs]
+      refine ⟨rfl, ?_, ?_⟩
+      · simp only [mgrAlive]; rw [← hlc, hmg]; exact ha
+      · simp only [mockOf]
+        have hmtc : mt.chan = chan := by simpa using List.find?_some hmt
+        exact find?_setMock_own _ _ mt _ (by rw [mockOpen_chan, hmtc]) hmt
+
+/-! ### the manager's translation, by `ownB` -/
+
+theorem ownB_iff (ii : Indexed) (ex : Nat) (o : Open) :
+    ownB ii ex o = true ↔ ∃ x, ii.instruments[o.instrument]? = some x ∧ x.value.exchange.value = ex := by
+  unfold ownB
+  cases ii.instruments[o.instrument]? with
+  | none => simp
+  | some x => simp
+
+/-- For builder output: the manager of exchange `ex` (at exchange index `xi`) hands its client a
+request for (xi, i) exactly when instrument `i` is an instrument of `ex`, addressed with the exchange
+id and the instrument's exchange name; otherwise it refuses (and dies). -/
+theorem managerClientRequest_own {defs : List Def} {ii : Indexed} (h : build defs = some ii)
+    {ex : Nat} {m : ExecMap.EMap} (hm : ExecMap.genMap (toColl ii) ex = .ok m)
+    {xi : Nat} {kx : Keyed Nat Nat} (hxi : ii.exchanges[xi]? = some kx) (hkx : kx.value = ex)
+    (o : Open) (ho : o.exchange = xi) :
+    ExecMap.managerClientRequest m
+        { key := { exchange := o.exchange, instrument := o.instrument, cid := o.cid }, state := 0 } =
+      if ownB ii ex o then some { key := { exchange := ex, instrument := nameOf ii o, cid := o.cid }, state := 0 }
+      else none := by
+  have hW := wfx_toColl h
+  have hid : ExecMap.specExchangeId (toColl ii) ex o.exchange = some ex := by
+    rw [ExecMap.specExchangeId_some]
+    refine ⟨rfl, ⟨kx.key, kx.value⟩, ?_, hkx⟩
+    simp [toColl, ho, hxi]
+  rw [ExecMap.managerClientRequest_eq hW hm]
+  by_cases hb : ownB ii ex o = true
+  · obtain ⟨x, hx, hex⟩ := (ownB_iff ii ex o).mp hb
+    have hk : (toColl ii).instruments[o.instrument]? = some ⟨x.key, x.value.exchange.value, x.value.nameExchange⟩ := by
+      rw [toColl_instrument, hx]; rfl
+    have hn : ExecMap.specInstrumentName (toColl ii) ex o.instrument = some x.value.nameExchange :=
+      (ExecMap.specInstrumentName_some _ ex _ _).mpr ⟨_, hk, hex, rfl⟩
+    have hname : nameOf ii o = x.value.nameExchange := by simp [nameOf, hx]
+    simp only [ExecMap.specOrderRequest, hid, hn, hb, if_true, hname]
+  · have hn : ExecMap.specInstrumentName (toColl ii) ex o.instrument = none := by
+      cases hs : ExecMap.specInstrumentName (toColl ii) ex o.instrument with
+      | none => rfl
+      | some n =>
+        exfalso
+        obtain ⟨k, hk, hke, _⟩ := (ExecMap.specInstrumentName_some _ ex _ n).mp hs
+        rw [toColl_instrument] at hk
+        cases hx : ii.instruments[o.instrument]? with
+        | none => simp [hx] at hk
+        | some x =>
+          simp only [hx, Option.map_some, Option.some.injEq] at hk
+          subst hk
+          exact hb ((ownB_iff ii ex o).mpr ⟨x, hx, hke⟩)
+    simp only [ExecMap.specOrderRequest, hid, hn, hb]
+    rfl
+
+/-! ### whole histories -/
+
+theorem routedTo_cons (ii : Indexed) (ex xi : Nat) (o : Open) (os : List Open) :
+    routedTo ii ex xi (o :: os) =
+      if o.exchange = xi then (if ownB ii ex o then o :: routedTo ii ex xi os else []) else routedTo ii ex xi os := by
+  unfold routedTo
+  by_cases h : o.exchange = xi
+  · simp only [List.filter_cons, h, beq_self_eq_true, if_true, List.takeWhile_cons]
+  · have : (o.exchange == xi) = false := by simpa using h
+    simp only [List.filter_cons, this, h, if_false, Bool.false_eq_true]
+
+theorem managerAlive_cons (ii : Indexed) (ex xi : Nat) (o : Open) (os : List Open) :
+    managerAlive ii ex xi (o :: os) =
+      if o.exchange = xi then (ownB ii ex o && managerAlive ii ex xi os) else managerAlive ii ex xi os := by
+  unfold managerAlive
+  by_cases h : o.exchange = xi
+  · simp only [List.filter_cons, h, beq_self_eq_true, if_true, List.all_cons]
+  · have : (o.exchange == xi) = false := by simpa using h
+    simp only [List.filter_cons, this, h, if_false, Bool.false_eq_true]
+
+theorem mem_takeWhile_imp {α : Type} (p : α → Bool) (l : List α) (a : α) (h : a ∈ l.takeWhile p) :
+    p a = true := by
+  induction l with
+  | nil => cases h
+  | cons b t ih =>
+    simp only [List.takeWhile_cons] at h
+    split at h
+    · rename_i hb
+      rcases List.mem_cons.mp h with rfl | h'
+      · exact hb
+      · exact ih h'
+    · cases h
+
+/-- every request of `routedTo` is an own request -/
+theorem routedTo_own (ii : Indexed) (c : MockConfig) (xi : Nat) (os : List Open) :
+    ∀ o ∈ routedTo ii c.exchange xi os, Own ii c o := by
+  intro o ho
+  unfold routedTo at ho
+  have := mem_takeWhile_imp _ _ _ ho
+  exact (ownB_iff ii c.exchange o).mp this
+
+/-- **Composition, whole histories.** From any state in which the link of exchange `ex` (exchange
+index `xi`) is set up (`LinkInv`), its mock exchange task is `mt` and its manager runs (or not: `al`):
+after ANY history `os` of open requests — for any exchange index, any instrument index — the mock
+exchange task of this link is the ISOLATED run `mockRun` of `mt` on exactly the requests routed to it
+(`routedTo`: those addressed to `xi`, up to the first foreign instrument), and its manager runs iff it
+ran and no request addressed to `xi` named a foreign instrument. -/
+theorem runAll_link {defs : List Def} {ii : Indexed} (h : build defs = some ii)
+    {ex : Nat} {m : ExecMap.EMap} (hm : ExecMap.genMap (toColl ii) ex = .ok m)
+    {xi : Nat} {kx : Keyed Nat Nat} (hxi : ii.exchanges[xi]? = some kx) (hkx : kx.value = ex) {chan : Nat}
+    (os : List Open) {e : Exec} (hl : LinkInv xi ex chan m e) {mt : MockTask} (hmt : mockOf e chan = some mt) :
+    LinkInv xi ex chan m (runAll e os) ∧
+    mgrAlive (runAll e os) ex = (mgrAlive e ex && managerAlive ii ex xi os) ∧
+    mockOf (runAll e os) chan =
+      some (mockRun ii m mt (if mgrAlive e ex then routedTo ii ex xi os else [])) := by
+  induction os generalizing e mt with
+  | nil =>
+    refine ⟨hl, by simp [runAll, managerAlive], ?_⟩
+    simp only [runAll, List.foldl_nil, routedTo, List.filter_nil, List.takeWhile_nil, ite_self, mockRun]
+    exact hmt
+  | cons o rest ih =>
+    have hl' := linkInv_sendOpen hl o
+    show LinkInv xi ex chan m (runAll (sendOpen e o).1 rest) ∧
+      mgrAlive (runAll (sendOpen e o).1 rest) ex = _ ∧ mockOf (runAll (sendOpen e o).1 rest) chan = _
+    rw [routedTo_cons, managerAlive_cons]
+    by_cases hx : o.exchange = xi
+    · simp only [hx, if_true]
+      obtain ⟨hdead, halive⟩ := sendOpen_own_link hl o hx hmt
+      cases hal : mgrAlive e ex with
+      | false =>
+        have hs := hdead hal
+        rw [hs]
+        obtain ⟨i1, i2, i3⟩ := ih hl hmt
+        rw [hal] at i2 i3
+        exact ⟨i1, by simpa using i2, by simpa using i3⟩
+      | true =>
+        have hstep := halive hal
+        rw [managerClientRequest_own h hm hxi hkx o hx] at hstep
+        cases hb : ownB ii ex o with
+        | false =>
+          simp only [hb, Bool.false_eq_true, if_false] at hstep
+          obtain ⟨_, s2, s3⟩ := hstep
+          obtain ⟨i1, i2, i3⟩ := ih hl' s3
+          rw [s2] at i2 i3
+          refine ⟨i1, by simpa using i2, ?_⟩
+          simpa [mockRun] using i3
+        | true =>
+          simp only [hb, if_true] at hstep
+          obtain ⟨_, s2, s3⟩ := hstep
+          obtain ⟨i1, i2, i3⟩ := ih hl' s3
+          rw [s2] at i2 i3
+          refine ⟨i1, by simpa using i2, ?_⟩
+          simp only [if_true] at i3 ⊢
+          rw [i3]
+          simp [mockRun]
+    · simp only [hx, if_false]
+      obtain ⟨s1, s2⟩ := sendOpen_other_link hl o hx
+      obtain ⟨i1, i2, i3⟩ := ih hl' (s2 ▸ hmt)
+      rw [s1] at i2 i3
+      exact ⟨i1, i2, i3⟩
+
+/-! ### `build()` + `init()` set every mock link up -/
+
+theorem lookup_mem_keys {β : Type} (l : List (Nat × β)) (k : Nat) (v : β) (h : l.lookup k = some v) :
+    k ∈ l.map (·.1) :=
+  (lookup_isSome_iff_mem_keys l k).mp (by rw [h]; rfl)
+
+/-- Builder output: after `build()` + `init()` the link of every mock exchange is set up
+(`LinkInv`), its mock exchange task is the freshly spawned one and its manager runs. -/
+theorem linkInv_buildInit {defs : List Def} {ii : Indexed} (h : build defs = some ii)
+    {adds : List Add} {b : Builder} (hadd : addAll ii {} adds 0 = .ok b)
+    {e : Exec} {snaps : List (Nat × List (Nat × Rat))} (hinit : buildInit ii b = .ok e snaps)
+    {mf : MockFuture} (hmf : mf ∈ b.mockFutures)
+    {m : ExecMap.EMap} (hm : ExecMap.genMap (toColl ii) mf.config.exchange = .ok m)
+    {xi : Nat} {kx : Keyed Nat Nat} (hxi : ii.exchanges[xi]? = some kx) (hkx : kx.value = mf.config.exchange) :
+    LinkInv xi mf.config.exchange mf.chan m e ∧ mockOf e mf.chan = some (spawnMock mf) ∧
+      mgrAlive e mf.config.exchange = true := by
+  have hb := binv_addAll (binv_empty ii) hadd
+  have hA := addAll_added hadd
+  have hW := wfx_toColl h
+  obtain ⟨htx, hmg, hmk⟩ := buildInit_ok hinit
+  have htx' := ExecMap.buildTxMap_eq hW hA
+  rw [htx] at htx'
+  simp only [Option.some.injEq] at htx'
+  -- the init future and the link of this mock
+  obtain ⟨f, hf, hfc, hfe⟩ := hb.mock_client mf hmf
+  have hlook := hb.init_link f hf
+  have hlink := hb.added_link _ _ hlook
+  obtain ⟨_, hgen, _⟩ := mkLink_fields hlink
+  have hfm : f.map = m := by
+    rw [hfe, hm] at hgen; injection hgen with hgen; exact hgen.symm
+  have hin : mf.config.exchange ∈ adds.map Add.exchange := by
+    have := ExecMap.addExecutions_lookup hA mf.config.exchange
+    rw [← hfe, hlook] at this
+    simp only [List.lookup] at this
+    split at this
+    · rw [← hfe]; assumption
+    · cases this
+  have hkxc : (toColl ii).exchanges[xi]? = some ⟨kx.key, kx.value⟩ := by simp [toColl, hxi]
+  have hids : ((toColl ii).exchanges.map (·.id)).Nodup := hW.2
+  have hskel : e.managers.map skelM = b.initFutures.map fun f => (f.exchange, f.map, f.client) := by
+    rw [hmg, List.map_map]; rfl
+  refine ⟨⟨?_, ?_, ?_, ?_⟩, ?_, ?_⟩
+  · -- find_own
+    rw [htx', ExecMap.find_built, hkxc]
+    simp only [hkx, hin, if_true]
+    rw [← hfe, hlink]
+    exact ⟨_, rfl, rfl⟩
+  · -- find_other
+    intro x l hfx hlc
+    rw [htx', ExecMap.find_built] at hfx
+    split at hfx
+    · cases hfx
+    · rename_i k hk
+      split at hfx
+      · split at hfx
+        · rename_i l' hl'
+          injection hfx with hfx; subst hfx
+          obtain ⟨hc, _, _⟩ := mkLink_fields hl'
+          have hkid : k.id = mf.config.exchange := by rw [← hc, hlc]
+          have hx1 : ((toColl ii).exchanges.map (·.id))[x]? = some mf.config.exchange := by
+            rw [List.getElem?_map, hk]; simp [hkid]
+          have hx2 : ((toColl ii).exchanges.map (·.id))[xi]? = some mf.config.exchange := by
+            rw [List.getElem?_map, hkxc]; simp [hkx]
+          have hlt : x < ((toColl ii).exchanges.map (·.id)).length := (List.getElem?_eq_some_iff.mp hx1).1
+          exact (List.getElem?_inj hlt hids).mp (by rw [hx1, hx2])
+        · cases hfx
+      · cases hfx
+  · -- mgr
+    rw [hskel]
+    have hn : ((b.initFutures.map fun f => (f.exchange, f.map, f.client)).map (·.1)).Nodup := by
+      rw [List.map_map]
+      have : ((fun (s : Nat × ExecMap.EMap × Client) => s.1) ∘ fun (f : InitFuture) => (f.exchange, f.map, f.client)) =
+          (·.exchange) := rfl
+      rw [this, hb.init_keys]; exact hb.added_nodup
+    have := find?_of_nodup_key (·.1) _ hn (f.exchange, f.map, f.client) (List.mem_map.mpr ⟨f, hf, rfl⟩)
+    simp only [hfe] at this
+    rw [this, hfm, hfc]
+  · -- chan_only
+    intro s hs hsc
+    rw [hskel] at hs
+    obtain ⟨f', hf', rfl⟩ := List.mem_map.mp hs
+    simp only at hsc ⊢
+    obtain ⟨mf', hmf', h1, h2⟩ := hb.client_mock f' hf' mf.chan hsc
+    have : mf' = mf := ExecMap.eq_of_mem_nodup_map MockFuture.chan hb.chan_nodup hmf' hmf h1
+    rw [← h2, this]
+  · -- mockOf
+    simp only [mockOf, hmk]
+    have hn : ((b.mockFutures.map spawnMock).map (·.chan)).Nodup := by
+      rw [List.map_map]
+      have : ((fun (t : MockTask) => t.chan) ∘ spawnMock) = (·.chan) := rfl
+      rw [this]; exact hb.chan_nodup
+    exact find?_of_nodup_key (·.chan) _ hn (spawnMock mf) (List.mem_map_of_mem hmf)
+  · -- the manager runs
+    simp only [mgrAlive]
+    cases hfind : e.managers.find? (fun m => m.exchange == mf.config.exchange) with
+    | none =>
+      exfalso
+      have hsk := find?_skel e.managers mf.config.exchange
+      rw [hfind, hskel] at hsk
+      have hn : ((b.initFutures.map fun f => (f.exchange, f.map, f.client)).map (·.1)).Nodup := by
+        rw [List.map_map]
+        have : ((fun (s : Nat × ExecMap.EMap × Client) => s.1) ∘ fun (f : InitFuture) => (f.exchange, f.map, f.client)) =
+            (·.exchange) := rfl
+        rw [this, hb.init_keys]; exact hb.added_nodup
+      have := find?_of_nodup_key (·.1) _ hn (f.exchange, f.map, f.client) (List.mem_map.mpr ⟨f, hf, rfl⟩)
+      simp only [hfe] at this
+      rw [this] at hsk
+      cases hsk
+    | some mg =>
+      have hmem := List.mem_of_find?_eq_some hfind
+      rw [hmg] at hmem
+      obtain ⟨f', _, rfl⟩ := List.mem_map.mp hmem
+      rfl
+
+/-- Every mock exchange of a built system has its exchange index and its manager's map. -/
+theorem mock_link_exists {ii : Indexed}
+    {adds : List Add} {b : Builder} (hadd : addAll ii {} adds 0 = .ok b)
+    {mf : MockFuture} (hmf : mf ∈ b.mockFutures) :
+    ∃ (m : ExecMap.EMap) (xi : Nat) (kx : Keyed Nat Nat), ExecMap.genMap (toColl ii) mf.config.exchange = .ok m ∧ ii.exchanges[xi]? = some kx ∧
+      kx.value = mf.config.exchange ∧ genMockInstruments ii mf.config.exchange = .ok mf.table := by
+  have hb := binv_addAll (binv_empty ii) hadd
+  obtain ⟨f, hf, _, hfe⟩ := hb.mock_client mf hmf
+  have hlink := hb.added_link _ _ (hb.init_link f hf)
+  obtain ⟨_, hgen, _⟩ := mkLink_fields hlink
+  rw [hfe] at hgen
+  obtain ⟨ke, hke, _⟩ := ExecMap.genMap_ok hgen
+  have hmem := List.mem_of_find?_eq_some hke
+  have hid : ke.id = mf.config.exchange := by simpa using List.find?_some hke
+  simp only [toColl, List.mem_map] at hmem
+  obtain ⟨x, hx, rfl⟩ := hmem
+  obtain ⟨xi, hxi⟩ := List.mem_iff_getElem?.mp hx
+  exact ⟨f.map, xi, x, hgen, hxi, hid, hb.mock_table mf hmf⟩
+
+/-! ### the composed statements -/
+
+/-- **The built system runs its mock exchanges in isolation** (theorem review A, C04M-1). Builder
+output, any successful adds, `build()` + `init()`; `mf` one of the mock exchanges (exchange id `ex`,
+exchange index `xi`, manager's map `m`). After ANY history `os` of open requests sent through the
+system — to any exchange index, for any instrument index, including ones that kill managers or mock
+exchanges: the state of THIS mock exchange task is the isolated run `mockRun` of the spawned task on
+the requests routed to it (`routedTo`); its manager runs iff no request addressed to `xi` named a
+foreign instrument. -/
+theorem built_mock_is_isolated_run {defs : List Def} {ii : Indexed} (h : build defs = some ii)
+    {adds : List Add} {b : Builder} (hadd : addAll ii {} adds 0 = .ok b)
+    {e : Exec} {snaps : List (Nat × List (Nat × Rat))} (hinit : buildInit ii b = .ok e snaps)
+    {mf : MockFuture} (hmf : mf ∈ b.mockFutures)
+    {m : ExecMap.EMap} (hm : ExecMap.genMap (toColl ii) mf.config.exchange = .ok m)
+    {xi : Nat} {kx : Keyed Nat Nat} (hxi : ii.exchanges[xi]? = some kx) (hkx : kx.value = mf.config.exchange)
+    (os : List Open) :
+    LinkInv xi mf.config.exchange mf.chan m (runAll e os) ∧
+    mgrAlive (runAll e os) mf.config.exchange = managerAlive ii mf.config.exchange xi os ∧
+    mockOf (runAll e os) mf.chan =
+      some (mockRun ii m (spawnMock mf) (routedTo ii mf.config.exchange xi os)) := by
+  obtain ⟨hl, hmt, hal⟩ := linkInv_buildInit h hadd hinit hmf hm hxi hkx
+  obtain ⟨r1, r2, r3⟩ := runAll_link h hm hxi hkx os hl hmt
+  rw [hal] at r2 r3
+  exact ⟨r1, by simpa using r2, by simpa using r3⟩
+
+/-- **One more request in the built system is one isolated step.** Same setting; the next request
+addressed to exchange index `xi`: refused (`closed`) when the manager is gone; kills the manager when
+it names a foreign instrument; otherwise it reaches the mock exchange under the instrument's exchange
+name and what comes back is `mockOpen` of the ISOLATED run — the object `engine_view_refinement`,
+`reject_outcome_refines_view`, `ledger_is_C08`, `configured_balances_keep_it_alive` speak about. -/
+theorem built_order_is_isolated_step {defs : List Def} {ii : Indexed} (h : build defs = some ii)
+    {adds : List Add} {b : Builder} (hadd : addAll ii {} adds 0 = .ok b)
+    {e : Exec} {snaps : List (Nat × List (Nat × Rat))} (hinit : buildInit ii b = .ok e snaps)
+    {mf : MockFuture} (hmf : mf ∈ b.mockFutures)
+    {m : ExecMap.EMap} (hm : ExecMap.genMap (toColl ii) mf.config.exchange = .ok m)
+    {xi : Nat} {kx : Keyed Nat Nat} (hxi : ii.exchanges[xi]? = some kx) (hkx : kx.value = mf.config.exchange)
+    (os : List Open) (o : Open) (ho : o.exchange = xi) :
+    let mt := mockRun ii m (spawnMock mf) (routedTo ii mf.config.exchange xi os)
+    (managerAlive ii mf.config.exchange xi os = false → sendOpen (runAll e os) o = (runAll e os, .closed)) ∧
+    (managerAlive ii mf.config.exchange xi os = true → ownB ii mf.config.exchange o = false →
+      (sendOpen (runAll e os) o).2 = .managerPanic) ∧
+    (managerAlive ii mf.config.exchange xi os = true → ownB ii mf.config.exchange o = true →
+      (sendOpen (runAll e os) o).2 =
+        .mock mf.config.exchange (nameOf ii o) (mockOpen m mt (nameOf ii o) o).2 ∧
+      mockOf (sendOpen (runAll e os) o).1 mf.chan = some (mockOpen m mt (nameOf ii o) o).1 ∧
+      m.exchange.key = xi) := by
+  intro mt
+  obtain ⟨hl, hal, hmt⟩ := built_mock_is_isolated_run h hadd hinit hmf hm hxi hkx os
+  obtain ⟨hdead, halive⟩ := sendOpen_own_link hl o ho hmt
+  refine ⟨fun hd => hdead (by rw [hal]; exact hd), ?_, ?_⟩
+  · intro ha hb
+    have := halive (by rw [hal]; exact ha)
+    rw [managerClientRequest_own h hm hxi hkx o ho] at this
+    simp only [hb, Bool.false_eq_true, if_false] at this
+    exact this.1
+  · intro ha hb
+    have := halive (by rw [hal]; exact ha)
+    have hreq := managerClientRequest_own h hm hxi hkx o ho
+    rw [hreq] at this
+    simp only [hb, if_true] at this hreq
+    obtain ⟨hk, _, _⟩ := managerClientRequest_some hreq
+    exact ⟨this.1, this.2.2, by rw [hk]; exact ho⟩
+
+/-! ### the manager's timeout in the built system -/
+
+theorem linkMock_eq {xi ex chan : Nat} {m : ExecMap.EMap} {e : Exec} (h : LinkInv xi ex chan m e) :
+    linkMock e xi = mockOf e chan := by
+  obtain ⟨l, hl, hlc⟩ := h.find_own
+  obtain ⟨mg, hmg, _, _, hmgc, _⟩ := linkInv_manager h
+  rw [← hlc] at hmg
+  simp only [linkMock, hl, hmg, hmgc, mockOf]
+
+/-- The timeout layer never touches the system state: whatever the engine is told, the exchange has
+done what `sendOpen` says. -/
+theorem sendOpenSeen_state (e : Exec) (o : Open) : (sendOpenSeen e o).1 = (sendOpen e o).1 := by
+  unfold sendOpenSeen
+  simp only
+  split <;> rfl
+
+
+theorem runAllSeen_eq (e : Exec) (os : List Open) : runAllSeen e os = runAll e os := by
+  unfold runAllSeen runAll
+  congr 1
+  funext e o
+  exact sendOpenSeen_state e o
+
+/-- What the ENGINE is handed for a request that reaches a mock exchange of a built system: the
+events of the isolated step, with the order snapshot replaced by the manager's own `Timeout` under the
+request's key exactly when the task is alive after the request and its latency is at least the
+manager's request timeout. -/
+theorem built_order_seen {defs : List Def} {ii : Indexed} (h : build defs = some ii)
+    {adds : List Add} {b : Builder} (hadd : addAll ii {} adds 0 = .ok b)
+    {e : Exec} {snaps : List (Nat × List (Nat × Rat))} (hinit : buildInit ii b = .ok e snaps)
+    {mf : MockFuture} (hmf : mf ∈ b.mockFutures)
+    {m : ExecMap.EMap} (hm : ExecMap.genMap (toColl ii) mf.config.exchange = .ok m)
+    {xi : Nat} {kx : Keyed Nat Nat} (hxi : ii.exchanges[xi]? = some kx) (hkx : kx.value = mf.config.exchange)
+    (os : List Open) (o : Open) (ho : o.exchange = xi)
+    (ha : managerAlive ii mf.config.exchange xi os = true) (hb : ownB ii mf.config.exchange o = true) :
+    let mt := mockRun ii m (spawnMock mf) (routedTo ii mf.config.exchange xi os)
+    let r := mockOpen m mt (nameOf ii o) o
+    (sendOpenSeen (runAll e os) o).2 =
+      .mock mf.config.exchange (nameOf ii o)
+        (if answersLate r.1 then r.2.timedOut xi o.instrument else r.2.seen) := by
+  intro mt r
+  obtain ⟨_, _, hstep⟩ := built_order_is_isolated_step h hadd hinit hmf hm hxi hkx os o ho
+  obtain ⟨hres, hmock, _⟩ := hstep ha hb
+  obtain ⟨hl, _, _⟩ := built_mock_is_isolated_run h hadd hinit hmf hm hxi hkx os
+  have hl' := linkInv_sendOpen hl o
+  have hlm : linkMock (sendOpen (runAll e os) o).1 o.exchange = some r.1 := by
+    rw [ho, linkMock_eq hl', hmock]
+  rw [ho] at hlm
+  unfold sendOpenSeen
+  simp only [hres, ho, hlm]
+  rfl
+
+/-- **The composed refinement** (what the `spec` driver prints for a request on a mock link it speaks
+about). Builder output, any adds, `build()` + `init()`; `mf` a mock exchange satisfying `ViewHypW`
+(unambiguous names on it, balances exactly for its assets; no `WFAssets`). After ANY history `os` sent
+through the built system in which no request addressed to `xi` named a foreign instrument, a request
+for an own instrument of `xi` is answered `mock` under the instrument's exchange name, and the engine
+is handed exactly what the index-level C08 specification prescribes over the requests ROUTED to this
+exchange (`specHistory` of `routedTo`): balance and fill when it prescribes a fill — also when the
+manager has timed out —, nothing otherwise; and the order snapshot under (`xi`, instrument index)
+with `specSeen` of the outcome: `timeout` when the configured latency reaches the manager's request
+timeout, else filled / active / the reason `specOutcome` names. -/
+theorem built_refines_view {defs : List Def} {ii : Indexed} (h : build defs = some ii)
+    {adds : List Add} {b : Builder} (hadd : addAll ii {} adds 0 = .ok b)
+    {e : Exec} {snaps : List (Nat × List (Nat × Rat))} (hinit : buildInit ii b = .ok e snaps)
+    {mf : MockFuture} (hmf : mf ∈ b.mockFutures) {m : ExecMap.EMap}
+    (H : ViewHypW defs ii mf.config m mf.table)
+    {xi : Nat} {kx : Keyed Nat Nat} (hxi : ii.exchanges[xi]? = some kx) (hkx : kx.value = mf.config.exchange)
+    (os : List Open) (o : Open) (ho : o.exchange = xi)
+    (ha : managerAlive ii mf.config.exchange xi os = true) (hb : ownB ii mf.config.exchange o = true) :
+    ∃ ev, (sendOpenSeen (runAll e os) o).2 = .mock mf.config.exchange (nameOf ii o) ev ∧
+      (match specObserve ii mf.config (specHistory ii mf.config (routedTo ii mf.config.exchange xi os)) o with
+        | some (a, bal, tr) =>
+          ev.balance = some (a, bal, bal) ∧
+          ev.trade = some (tr.instr, tr.side, tr.price, tr.qty, tr.fees) ∧ tr.instr = o.instrument ∧
+          ev.order = some (xi, o.instrument,
+            specSeen mf.config (if o.qty - tr.qty = 0 then .filled else .active))
+        | none =>
+          ev.balance = none ∧ ev.trade = none ∧
+          ev.order = some (xi, o.instrument, specSeen mf.config
+            (specOutcome ii mf.config (specHistory ii mf.config (routedTo ii mf.config.exchange xi os)) o))) := by
+  have hm := H.map
+  have hseen := built_order_seen h hadd hinit hmf hm hxi hkx os o ho ha hb
+  obtain ⟨_, _, hstep⟩ := built_order_is_isolated_step h hadd hinit hmf hm hxi hkx os o ho
+  obtain ⟨_, _, hkey⟩ := hstep ha hb
+  have hown : Own ii mf.config o := (ownB_iff ii mf.config.exchange o).mp hb
+  have hos := routedTo_own ii mf.config xi os
+  have hv : ViewInv mf.config m mf.table
+      (mockRun ii m (spawnMock mf) (routedTo ii mf.config.exchange xi os))
+      (specHistory ii mf.config (routedTo ii mf.config.exchange xi os)) :=
+    viewInv_run_w H _ hos (viewInv_spawn mf.config m mf.table mf.chan)
+  obtain ⟨hv', hobs⟩ := viewInv_step_w H hv o hown
+  obtain ⟨ops', hh', _, hd', _⟩ := hv'
+  have hlat := mockHist_latency hh'
+  have hlate : answersLate (mockOpen m (mockRun ii m (spawnMock mf) (routedTo ii mf.config.exchange xi os))
+      (nameOf ii o) o).1 = decide (mockRequestTimeoutMs ≤ mf.config.latency) := by
+    simp only [answersLate, hd', hlat, Bool.not_false, Bool.true_and]
+  refine ⟨_, hseen, ?_⟩
+  simp only [hlate]
+  -- the outcome of a request that is not filled
+  have hrej : specObserve ii mf.config (specHistory ii mf.config (routedTo ii mf.config.exchange xi os)) o = none →
+      (mockOpen m (mockRun ii m (spawnMock mf) (routedTo ii mf.config.exchange xi os)) (nameOf ii o) o).2.order =
+        some (m.exchange.key, o.instrument,
+          specOutcome ii mf.config (specHistory ii mf.config (routedTo ii mf.config.exchange xi os)) o) := by
+    intro hnone
+    obtain ⟨ops, hh, htab, hd, hacc⟩ := hv
+    obtain ⟨x, hx, hex⟩ := hown
+    have hname : nameOf ii o = x.value.nameExchange := by simp [nameOf, hx]
+    have := mockOpen_reject_outcome_w H hh htab hd hx hex o rfl
+    simp only [hacc] at this
+    rw [hname]
+    exact this hnone
+  cases hso : specObserve ii mf.config (specHistory ii mf.config (routedTo ii mf.config.exchange xi os)) o with
+  | none =>
+    rw [hso] at hobs
+    simp only at hobs ⊢
+    obtain ⟨h1, h2⟩ := hobs
+    have h3 := hrej hso
+    by_cases hl : mockRequestTimeoutMs ≤ mf.config.latency
+    · simp [hl, Events.timedOut, h1, h2, specSeen]
+    · simp [hl, Events.seen, h1, h2, h3, specSeen, hkey]
+  | some r =>
+    obtain ⟨a, bal, tr⟩ := r
+    rw [hso] at hobs
+    simp only at hobs ⊢
+    obtain ⟨h1, h2, h3, h4⟩ := hobs
+    by_cases hl : mockRequestTimeoutMs ≤ mf.config.latency
+    · simp [hl, Events.timedOut, h1, h2, h3, specSeen]
+    · simp [hl, Events.seen, h1, h2, h3, h4, specSeen, hkey]
+
+/-! ### the isolated run: ledger, latency, survival (for the composed statements of `Props/C04M`) -/
+
+theorem mockOpen_latency (map : ExecMap.EMap) (m : MockTask) (name : Nat) (o : Open) :
+    (mockOpen map m name o).1.st.latency = m.st.latency := by
+  cases hd : m.dead with
+  | true => rw [mockOpen_dead map m name o hd]
+  | false => rw [(mockOpen_alive map m name o hd).1, step_latency]
+
+theorem mockRun_latency (ii : Indexed) (m : ExecMap.EMap) (mt : MockTask) (os : List Open) :
+    (mockRun ii m mt os).st.latency = mt.st.latency := by
+  induction os generalizing mt with
+  | nil => rfl
+  | cons o rest ih =>
+    simp only [mockRun, List.foldl_cons]
+    exact (ih _).trans (mockOpen_latency m mt _ o)
+
+theorem mockRun_dead (ii : Indexed) (m : ExecMap.EMap) (mt : MockTask) (os : List Open) (hd : mt.dead = true) :
+    mockRun ii m mt os = mt := by
+  induction os with
+  | nil => rfl
+  | cons o rest ih =>
+    simp only [mockRun, List.foldl_cons] at ih ⊢
+    rw [mockOpen_dead m mt _ o hd]; exact ih
+
+/-- The isolated run of a mock exchange task is a C08 run: its ledger is `MockExchange.run` from
+`toCfg` on the requests it executed — all of them while it lives. -/
+theorem mockRun_hist (ii : Indexed) (m : ExecMap.EMap) {mt : MockTask} {c : MockConfig}
+    {ops0 : List (Int × MockExchange.Request)} (h0 : MockHist mt c ops0) (os : List Open) :
+    ∃ ops, MockHist (mockRun ii m mt os) c ops ∧ (mockRun ii m mt os).table = mt.table ∧
+      ((mockRun ii m mt os).dead = false →
+        ops = ops0 ++ os.map fun o => (0, .openOrder (mockReq mt.table (nameOf ii o) o))) := by
+  induction os generalizing mt ops0 with
+  | nil => exact ⟨ops0, h0, rfl, fun _ => by simp⟩
+  | cons o rest ih =>
+    cases hd : mt.dead with
+    | true =>
+      rw [mockRun_dead ii m mt _ hd]
+      exact ⟨ops0, h0, rfl, fun h => by rw [hd] at h; cases h⟩
+    | false =>
+      have h1 := mockHist_mockOpen h0 hd m (nameOf ii o) o
+      have ht := (mockOpen_alive m mt (nameOf ii o) o hd).2.1
+      obtain ⟨ops, hh, htab, hops⟩ := ih h1
+      refine ⟨ops, hh, by rw [← ht]; exact htab, ?_⟩
+      intro hdd
+      have := hops hdd
+      rw [this, ht]
+      simp
+
+/-- With a well-formed C08 configuration (a balance for every base / quote name of the table) the
+isolated run never dies, whatever it is sent. -/
+theorem mockRun_alive_of_wf (ii : Indexed) (m : ExecMap.EMap) {mt : MockTask} {c : MockConfig}
+    {ops0 : List (Int × MockExchange.Request)} (h0 : MockHist mt c ops0) (hd : mt.dead = false)
+    (hw : (toCfg c mt.table).wf = true) (os : List Open) : (mockRun ii m mt os).dead = false := by
+  induction os generalizing mt ops0 with
+  | nil => exact hd
+  | cons o rest ih =>
+    simp only [mockRun, List.foldl_cons]
+    have h1 := mockHist_mockOpen h0 hd m (nameOf ii o) o
+    obtain ⟨_, ht, _, h4⟩ := mockOpen_alive m mt (nameOf ii o) o hd
+    refine ih h1 ?_ (by rw [ht]; exact hw)
+    cases hdd : (mockOpen m mt (nameOf ii o) o).1.dead with
+    | false => rfl
+    | true =>
+      have := h4.mp hdd
+      rw [h0.st] at this
+      have hWF := MockExchange.refines_wf (MockExchange.refines_run hw ops0) hw
+      rw [MockExchange.step_open_resp] at this
+      injection this with this
+      exact absurd this (MockExchange.openOrder_no_panic (MockExchange.updateTime_wf 0 hWF) _)
+
+/-- Whether the engine is told `timeout` for a request that reaches a mock exchange of the built
+system: exactly when the task survives the request and the CONFIGURED latency reaches the manager's
+request timeout. -/
+theorem answersLate_isolated (ii : Indexed) (m : ExecMap.EMap) (mf : MockFuture) (os : List Open)
+    (name : Nat) (o : Open) :
+    answersLate (mockOpen m (mockRun ii m (spawnMock mf) os) name o).1 =
+      (!(mockOpen m (mockRun ii m (spawnMock mf) os) name o).1.dead &&
+        decide (mockRequestTimeoutMs ≤ mf.config.latency)) := by
+  simp only [answersLate, mockOpen_latency, mockRun_latency]
+  rfl
+
+/-! ### the initial snapshot of the built system -/
+
+/-- **The initial account snapshot of the BUILT system** (spec key `snap<x>`): `init_snapshot_refines_view`
+composed with `buildInit` — for a mock exchange satisfying `ViewHypW` the list of initial snapshots
+holds, under the exchange's own index `xi`, a snapshot that is `specSnapshot` up to order. -/
+theorem built_init_snapshot {defs : List Def} {ii : Indexed}
+    {adds : List Add} {b : Builder} (hadd : addAll ii {} adds 0 = .ok b)
+    {e : Exec} {snaps : List (Nat × List (Nat × Rat))} (hinit : buildInit ii b = .ok e snaps)
+    {mf : MockFuture} (hmf : mf ∈ b.mockFutures) {m : ExecMap.EMap}
+    (H : ViewHypW defs ii mf.config m mf.table) :
+    ∃ l, (m.exchange.key, l) ∈ snaps ∧ l.Perm (specSnapshot ii mf.config) := by
+  have hb := binv_addAll (binv_empty ii) hadd
+  obtain ⟨f, hf, hfc, hfe⟩ := hb.mock_client mf hmf
+  have hlink := hb.added_link _ _ (hb.init_link f hf)
+  obtain ⟨_, hgen, hidx⟩ := mkLink_fields hlink
+  simp only at hgen hidx
+  have hfm : f.map = m := by
+    rw [hfe, H.map] at hgen; injection hgen with hgen; exact hgen.symm
+  have hfind : b.mockFutures.find? (fun x => x.chan == mf.chan) = some ⟨mf.chan, mf.config, mf.table⟩ :=
+    find?_of_nodup_key (·.chan) _ hb.chan_nodup mf hmf
+  obtain ⟨l, hl, hperm⟩ := initSnapshot_refines_view_w H b.mockFutures f mf.chan hfc hfm hfind
+  refine ⟨l, ?_, hperm⟩
+  -- the snapshot list of `buildInit`
+  unfold buildInit at hinit
+  split at hinit
+  · cases hinit
+  · split at hinit
+    · cases hinit
+    · rename_i snaps' hs
+      injection hinit with _ h2
+      subst h2
+      rw [mapO_mem _ _ _ hs]
+      exact ⟨f, hf, by simp [hl, hidx, hfm]⟩
+
+/-- An exchange added a second time (its table can be generated, it is indexed): `add_mock` returns
+`Err` (duplicate) — no panic, nothing spawned. -/
+theorem addMock_duplicate (ii : Indexed) (b : Builder) (c : MockConfig) {t : Table} {m : ExecMap.EMap}
+    {l : ExecMap.Link} (ht : genMockInstruments ii c.exchange = .ok t)
+    (hm : ExecMap.genMap (toColl ii) c.exchange = .ok m) (hl : b.added.lookup c.exchange = some l) :
+    addMock ii b c = .error (.build .duplicate) := by
+  simp [addMock, ht, addExecution, ExecMap.addExecution, hm, hl]
+
+theorem addLive_duplicate (ii : Indexed) (b : Builder) (ex : Nat) {m : ExecMap.EMap}
+    {l : ExecMap.Link} (hm : ExecMap.genMap (toColl ii) ex = .ok m) (hl : b.added.lookup ex = some l) :
+    addLive ii b ex = .error (.build .duplicate) := by
+  simp [addLive, addExecution, ExecMap.addExecution, hm, hl]
 
 end BarterModel.MockInstruments
